@@ -52,7 +52,7 @@ def Act.grp : Act → Grp
   | .callReceive .. | .callTakeRes .. => .g1
   | .waiterRecvCall .. | .waiterGetsValue .. | .waiterSend .. => .g2
   | .waiterGetsDone .. | .waiterGetsCtx .. | .waiterFree .. => .g3
-  | .respFrame .. | .pubLookup .. | .pubCtx .. | .pubSendClosed .. | .closureInvoke ..
+  | .respFrame .. | .pubLookup .. | .pubCtx .. | .pubSendClosed .. | .closureInvoke .. | .closureBodyDone ..
   | .ctxCancel .. | .ctxPropagate .. | .cancelLink => .g4
   | .setErrEnter .. | .setErrStore .. | .setErrClose .. | .watcher .. | .linkCheck | .linkWake | .linkReturn => .g5
 
@@ -136,6 +136,39 @@ theorem reach_wk (sk : Skeleton) (hy : Bc.Hyg sk) (hk : Bc.Wakes sk) {s : State}
 theorem reach_dl (sk : Skeleton) {s : State} (h : Reach sk s) : Bc.DL s.bc := bc_reach_dl sk (reach_bc sk h)
 theorem reach_lock_free (sk : Skeleton) (hsel : sk.bcPublishSelectOutsideLock = true) {s : State}
     (h : Reach sk s) : s.bc.lockHolder = none := bc_lock_free sk hsel (reach_bc sk h)
+
+/-! ### the closure table's mutex -/
+
+/-- `closuresLock` is held (between steps) only by a thread that is inside a closure body: the one
+    step that keeps it is a hit of `closureInvoke`, and `closureBodyDone` of that thread releases it. -/
+theorem cl_holder_runs_step (sk : Skeleton) {s s' : State} (a : Act) (hs : step sk s a = some s')
+    (h : ∀ q, s.clLock = some q → s.running q ≠ none) : ∀ q, s'.clLock = some q → s'.running q ≠ none := by
+  cases a <;> simp only [step] at hs
+  all_goals (repeat' split at hs) <;> (try simp at hs) <;> (try subst hs)
+  all_goals first
+    | exact h
+    | (intro q; grind [upd_apply])
+
+theorem reach_cl_holder_runs (sk : Skeleton) {s : State} (h : Reach sk s) :
+    ∀ q, s.clLock = some q → s.running q ≠ none := by
+  induction h with
+  | init => intro q hq; simp [init] at hq
+  | step a _ hs ih => exact cl_holder_runs_step sk a hs ih
+
+/-- when `CallClosure` unlocks before it calls the closure, the mutex is free between any two steps -/
+theorem cl_free_step (sk : Skeleton) (ho : sk.clInvokeOutsideLock = true) {s s' : State} (a : Act)
+    (hs : step sk s a = some s') (h : s.clLock = none) : s'.clLock = none := by
+  cases a <;> simp only [step] at hs
+  all_goals (repeat' split at hs) <;> (try simp at hs) <;> (try subst hs)
+  all_goals first
+    | exact h
+    | simp_all
+
+theorem reach_cl_free (sk : Skeleton) (ho : sk.clInvokeOutsideLock = true) {s : State}
+    (h : Reach sk s) : s.clLock = none := by
+  induction h with
+  | init => rfl
+  | step a _ hs ih => exact cl_free_step sk ho a hs ih
 
 /-- M2's crash flag: false as long as the embedded broadcaster has not crashed and the stub recovers. -/
 theorem crashed_step (sk : Skeleton) (hrec : sk.stubRecovers = true) {s s' : State} (a : Act)
